@@ -15,7 +15,8 @@ CONSTANTS NW, NR,        \* writer / reader goroutines
           JunkLens,      \* lengths of junk datagrams (subset of 0..8)
           UseWMu, UseRMu, UseLk,   \* FALSE: the mutex is not taken (model mutants)
           DeobfInLock,   \* FALSE: readMutex released before Deobfuscate (model mutant)
-          JunkRetry      \* FALSE: a rejected datagram ends ReadFrom with n = 0 (model mutant)
+          JunkRetry,     \* FALSE: a rejected datagram ends ReadFrom with n = 0 (model mutant)
+          UnlockOnRetry  \* FALSE: the retry branch re-enters the loop with readMutex still held (model mutant: self-deadlock)
 
 VARIABLES pc, loc, wmu, rmu, lk, writeBuf, readBuf, keyInput, inbox, nW, nI, nJ, done, mon, hist
 
@@ -123,7 +124,7 @@ RInner(r) == /\ pc[r] = "rInner" /\ inbox # <<>>
 \* Deobfuscate: outLen <= 0 -> 0 (and the loop retries); else o.lk.Lock(); copy salt into keyInput
 DCheck(r) == /\ pc[r] = "dCheck"
              /\ IF loc[r].n - SaltLen <= 0
-                THEN /\ rmu' = IF rmu = r THEN 0 ELSE rmu
+                THEN /\ rmu' = IF rmu = r /\ (UnlockOnRetry \/ ~JunkRetry) THEN 0 ELSE rmu
                      /\ IF JunkRetry
                         THEN pc' = [pc EXCEPT ![r] = "rLock"] /\ UNCHANGED mon
                         ELSE pc' = [pc EXCEPT ![r] = "idle"] /\ mon' = MonStep(mon, ReadRetEv(r, 0, <<>>), 0)
@@ -184,6 +185,14 @@ Finish == /\ ~done /\ nW = MaxW /\ nI = MaxI /\ inbox = <<>>
           /\ mon' = MonStep(mon, [ev |-> "End", scn |-> 0], 0)
           /\ UNCHANGED <<pc, loc, wmu, rmu, lk, writeBuf, readBuf, keyInput, inbox, nW, nI, nJ, hist>>
 
+\* the readers are stuck for good: one of them waits for the mutex it holds itself (Go mutexes are not reentrant)
+Stall == /\ ~done /\ nW = MaxW /\ nI = MaxI
+         /\ \A w \in Writers : pc[w] = "idle"
+         /\ \E r \in Readers : pc[r] = "rLock" /\ rmu = r
+         /\ done' = TRUE
+         /\ mon' = MonStep(mon, [ev |-> "ReadStalled", scn |-> 0], 0)
+         /\ UNCHANGED <<pc, loc, wmu, rmu, lk, writeBuf, readBuf, keyInput, inbox, nW, nI, nJ, hist>>
+
 Init == /\ pc = [p \in Procs |-> "idle"]
         /\ loc = [p \in Procs |-> [pid |-> 0, pay |-> <<>>, key |-> <<>>, iid |-> 0, n |-> 0, out |-> <<>>]]
         /\ wmu = 0 /\ rmu = 0 /\ lk = 0
@@ -195,7 +204,7 @@ Init == /\ pc = [p \in Procs |-> "idle"]
 Next == \/ \E w \in Writers : WStart(w) \/ WLock(w) \/ OSalt(w) \/ OHash(w) \/ OXor(w) \/ WInner(w) \/ WUnlock(w)
         \/ \E r \in Readers : RStart(r) \/ RLock(r) \/ RInner(r) \/ DCheck(r) \/ DHash(r) \/ DXor(r) \/ RUnlock(r)
         \/ (~done /\ (InjectValid \/ InjectJunk))
-        \/ Finish
+        \/ Finish \/ Stall
 
 Spec == Init /\ [][Next]_vars
 
